@@ -146,7 +146,10 @@ def gen_batch(rng, nstructs=14, can=False, granular_share=0.0):
             gprev.append(name)
         if can:
             bus = rng.choice(["b", "b1", "bus", "can1", "ab", "x"])
-            extra.append(f'impl can for {name} {{\n    id: {rng.randint(0, 2047)},\n    bus: "{bus}",\n}}')
+            # ids from a small pool half of the time: several bindings share an id on different buses (and now and then
+            # on the same bus, where the first one wins in both wrappers and in the model)
+            cid = rng.choice([7, 100, 1000, 2047]) if rng.random() < 0.5 else rng.randint(0, 2047)
+            extra.append(f'impl can for {name} {{\n    id: {cid},\n    bus: "{bus}",\n}}')
     d.extra = "\n".join(extra) + "\n"
     return d
 
@@ -541,6 +544,23 @@ def exercise_can(rep, rng, d, g, build, jobs, model):
     if not dec:
         return
     lean = run_driver([{"op": "frame", "schema": wire, "bindings": bindings, "items": ditems}])[0]
+    if "items" in lean:
+        # an altered frame may match another binding: its data is then foreign; it is a meaningful input only if it
+        # is an encoding of a value of that binding (enum fields holding enumerators) — otherwise outside the property
+        def foreign_ok(lf):
+            if "none" in lf:
+                return True
+            for (fn, fid, t), v in zip(d.sorted_fields(lf["name"]), lf["value"]):
+                if t[0] == "enum" and v not in [val for _, val in d.enum(t[1])]:
+                    return False
+                if t[0] == "f32" and (v >> 23) & 0xFF == 0xFF or t[0] == "f64" and (v >> 52) & 0x7FF == 0x7FF:
+                    return False  # NaN / infinity do not travel through JSON
+            return True
+        keep = [i for i, (lf, (w_, n_, mv_)) in enumerate(zip(lean["items"], dmeta)) if lf.get("name") == n_ or foreign_ok(lf)]
+        rep.cov["foreign_frames_skipped"] = rep.cov.get("foreign_frames_skipped", 0) + len(dec) - len(keep)
+        dec = [dec[i] for i in keep]
+        dmeta = [dmeta[i] for i in keep]
+        lean["items"] = [lean["items"][i] for i in keep]
     rc, out, err = talk(exe, os.path.join(ddir, "schema.bin"), dec)
     if len(out) != len(dec) or "items" not in lean:
         k = min(len(out), len(dec) - 1)
